@@ -1,11 +1,12 @@
-\* thorough: longer comment texts: every text of <= 6 cells over the comment alphabet (comment openers, the
-\* word in two spellings, a longer identifier starting with the word, another word, blank, tab, colon,
-\* parentheses, newline; no literals), several files / filter lists
+\* thorough: longer comment texts: every text of <= 6 cells that starts with a comment opener (//, #, /*,
+\* /**, or "\n# "), over the comment alphabet (openers, the word in two spellings, a longer identifier
+\* starting with the word, another word, blank, tab, colon, parentheses, newline; no literals)
 SPECIFICATION Spec
 CONSTANTS
   MaxLen = 6
+  Starts <- StartsComment
   Alphabet <- AlphaComment
-  Files <- FilesWide
-  FilterLists <- FiltersWide
+  Files <- FilesQuick
+  FilterLists <- FiltersQuick
   HashStrip = 1
 INVARIANTS C17_NoCrashOnAnyShape C17_ReportedExact C17_LineCounter Emit
